@@ -65,6 +65,35 @@ template <class A> static Verdict check_type(const std::string &text, const std:
   std::string out3;
   VF_REQUIRE(to_string<A>(q.uri, &out3) && out3 == out, "%s: recomposition is not a fixed point", A::name());
   (void)m;
+  // allocation failures: whatever a parse or a make-owner still reports as success must recompose to the same text
+  LedgerMM mm;
+  for (int k = 1; k <= 24; k++) {
+    Parsed<A> f;
+    mm.reset_counts(); mm.reset_plan(); mm.fail_at = (uint64_t)k;
+    parse_via<A>(f, PE_SINGLE_MM, s, &mm);
+    bool bit = mm.failed > 0;
+    mm.reset_plan();
+    if (!bit) break;
+    if (f.rc != 0) continue;
+    stats().hit("fault_bit_but_parse_reports_success");
+    std::string o;
+    VF_REQUIRE(to_string<A>(f.uri, &o) && o == expected, "%s: parse with allocation %d failing reports success but recomposes to '%s', expected '%s'", A::name(), k, esc(o).c_str(), esc(expected).c_str());
+  }
+  for (int k = 1; k <= 24; k++) {
+    Parsed<A> f;
+    mm.reset_counts(); mm.reset_plan();
+    parse_via<A>(f, PE_SINGLE_MM, s, &mm);
+    if (f.rc != 0) break;
+    mm.reset_counts(); mm.fail_at = (uint64_t)k;
+    int orc = A::MakeOwnerMm(&f.uri, &mm.mm);
+    bool bit = mm.failed > 0;
+    mm.reset_plan();
+    if (!bit) break;
+    if (orc != 0) continue;
+    stats().hit("fault_bit_but_make_owner_reports_success");
+    std::string o;
+    VF_REQUIRE(to_string<A>(f.uri, &o) && o == expected, "%s: make-owner with allocation %d failing reports success but recomposes to '%s', expected '%s'", A::name(), k, esc(o).c_str(), esc(expected).c_str());
+  }
   return Verdict::pass();
 }
 
